@@ -8,7 +8,7 @@ PROP = dict(
     rule=("(loop) library WebSocket::connect clients against a library WebSocketServer on 127.0.0.1 port 0 (port read back), directly and through "
           "HttpServer::link: scripts of 1-20 messages, each client->server, server->client or echoed, text (NUL-free) or binary, through every send() overload; "
           "EVERY length 1..300 and 65495..65576 in all 6 direction/type combinations, rapidcheck lengths biased to +-40 of 125/126/65535/65536 and sampled "
-          "up to 70000, 200000 and 1 MiB once per run (1, 2, 4 MiB thorough); ONE client WebSocket object is reused inside a case: connect, exchange, close(), connect() again to the same or the other server "
+          "up to 70000, 200000 and 1 MiB once per run (1, 2, 4 MiB thorough); in one session of four the client object first makes a connect() that is refused (a port bound but not listening) and the following connect() must work as on a fresh object; ONE client WebSocket object is reused inside a case: connect, exchange, close(), connect() again to the same or the other server "
           "(32 dedicated cases of 2-5 rounds in quick / 400 thorough whose reused object receives 124..128, 65534..65537, 300, 70000 bytes, plus `conn` ops "
           "interleaved in ~1/9 of the generated positions); the two ends wait for their messages in generated STYLES: blocking wait (the documentation's loop), polling `while(!closed()){if(!hasInput())continue;...}`, "
           "polling on connected(), wait(0.3 ms) / waitData(0.3 ms) loops whose timeouts expire between messages -- with the sender paced on the echo (every frame lands on an "
